@@ -13,26 +13,63 @@ Local Open Scope N_scope.
    equal up to [aeq] (every getter, the journal, the dirty sets, refund, logs,
    preimages), validator side equal up to the statistics-modified latch, both
    revision lists equal. *)
-Definition C09_full (fx : bool) : Prop :=
+Definition FX_OLD : fixes := mkFx false false.   (* the code before fix fe4c1ff *)
+Definition FX_NOW : fixes := mkFx true false.    (* the repository as it is now *)
+Definition FX_NEXT : fixes := mkFx true true.    (* with /verif/fixes/C09_validator_create_revert.diff *)
+
+Definition C09_full (fx : fixes) : Prop :=
   forall pre s0 ops s,
     run fx pre init = Some s0 ->
     window_gen fx any_op (next_rev s0) ops (fst (snapshot s0)) s ->
     exists s', revert_to_snapshot fx s (next_rev s0) = Some s' /\ restored s' s0.
-(* [fx] selects which code is meant: false = the repository as it is now, true =
-   with /verif/fixes/C09_validator_journal_reverts.diff applied (Model.v). *)
+(* [fx] says which repairs the code carries (Model.v, record [fixes]); the
+   harness finds out which behaviour the tree under test shows and evaluates the
+   model with the same switches.
+   As stated (any call allowed) the statement is too strong for either code:
+   Prepare is not journalled by design, the RIPEMD touch survives a revert by
+   design (C09_ripemd_touch_exception), and before the fix RemoveValidator and
+   RemoveWithdrawRecords were not undone (C09_refuted_before_fix). *)
 
-(* 1. The statement holds for every history whose calls inside the window are
-   [good_op] calls (see Proofs.v): everything except Prepare, the designed
-   RIPEMD touch exception, the two finding classes (RemoveValidator,
-   RemoveWithdrawRecords) and validator calls that would hit a lazily loaded,
-   re-created or statistics-inconsistent record. *)
-Theorem C09_revert_restores_holds_outside :
-  forall fx pre s0 ops s,
-    run fx pre init = Some s0 ->
-    window fx (next_rev s0) ops (fst (snapshot s0)) s ->
-    exists s', revert_to_snapshot fx s (next_rev s0) = Some s' /\ restored s' s0.
-Proof. exact revert_restores_reachable. Qed.
-Print Assumptions C09_revert_restores_holds_outside.
+(* 1'. The code before fix fe4c1ff (fx = false): the statement holds outside the
+   two finding classes - [good_op false] additionally excludes RemoveValidator
+   and RemoveWithdrawRecords. *)
+Theorem C09_revert_restores_before_fix_holds_outside :
+  forall pre s0 ops s,
+    run FX_OLD pre init = Some s0 ->
+    window FX_OLD (next_rev s0) ops (fst (snapshot s0)) s ->
+    exists s', revert_to_snapshot FX_OLD s (next_rev s0) = Some s' /\ restored s' s0.
+Proof. exact (revert_restores_reachable FX_OLD). Qed.
+Print Assumptions C09_revert_restores_before_fix_holds_outside.
+
+(* 1. MAIN THEOREM, the code as it is now (fx = true).  For every history [pre],
+   every snapshot taken after it and every list of calls [ops] that does not
+   panic, keeps the snapshot valid and consists of [good_op true] calls
+   (Proofs.v) - every modelled call except Prepare and a zero-value AddBalance
+   to the RIPEMD precompile; CreateValidator / UpdateValidator /
+   RemoveValidator / GetValidatorByMainAddr under the side conditions of
+   ProofsV.v (no lazy trie load inside the window, a created address is new, the
+   statistics cover the record that is updated or removed);
+   RemoveWithdrawRecords with distinct positions - the revert to the snapshot
+   does not fail and restores the state. *)
+Theorem C09_revert_restores :
+  forall pre s0 ops s,
+    run FX_NOW pre init = Some s0 ->
+    window FX_NOW (next_rev s0) ops (fst (snapshot s0)) s ->
+    exists s', revert_to_snapshot FX_NOW s (next_rev s0) = Some s' /\ restored s' s0.
+Proof. exact (revert_restores_reachable FX_NOW). Qed.
+Print Assumptions C09_revert_restores.
+
+(* 1''. With /verif/fixes/C09_validator_create_revert.diff (open finding, see
+   C09_create_over_removed_validator): CreateValidator may then also replace a
+   deleted record that is still in the live map, and the created address need
+   not be new to the index. *)
+Theorem C09_revert_restores_with_create_fix :
+  forall pre s0 ops s,
+    run FX_NEXT pre init = Some s0 ->
+    window FX_NEXT (next_rev s0) ops (fst (snapshot s0)) s ->
+    exists s', revert_to_snapshot FX_NEXT s (next_rev s0) = Some s' /\ restored s' s0.
+Proof. exact (revert_restores_reachable FX_NEXT). Qed.
+Print Assumptions C09_revert_restores_with_create_fix.
 
 (* 2. What "gives back" means for an observer: all account getters for every
    address and storage key, and exactly the observation vector the harness
@@ -54,6 +91,21 @@ Theorem C09_restored_validator_getters :
 Proof. exact veq_views. Qed.
 Print Assumptions C09_restored_validator_getters.
 
+(* 2'. "Resulting roots": whatever IntermediateRoot writes after the revert is
+   what it would have written at the snapshot - the account trie holds the same
+   accounts with the same nonce, balance, code, delegation data and storage
+   (slot by slot), the validator trie the same validators, index, statistics and
+   withdraw queue.  The roots are hashes of exactly this content. *)
+Theorem C09_resulting_tries :
+  forall d s1 s2, restored s1 s2 ->
+    objs_sim (atrie (sa (intermediate_root d s1))) (atrie (sa (intermediate_root d s2))) /\
+    vtrie (sv (intermediate_root d s1)) = vtrie (sv (intermediate_root d s2)) /\
+    sv_index (sv (intermediate_root d s1)) = sv_index (sv (intermediate_root d s2)) /\
+    sv_stat (sv (intermediate_root d s1)) = sv_stat (sv (intermediate_root d s2)) /\
+    sv_queue (sv (intermediate_root d s1)) = sv_queue (sv (intermediate_root d s2)).
+Proof. exact restored_tries. Qed.
+Print Assumptions C09_resulting_tries.
+
 (* 3. The invariant behind "reverting a valid snapshot never fails" holds in
    every state reachable through the API (after any number of transactions):
    both revision lists carry the same ids, all below the next id. *)
@@ -63,9 +115,11 @@ Theorem C09_revision_lists_agree :
 Proof. intros fx ops s H. pose proof (wf0_run fx ops init s wf0_init H) as (_ & H1 & H2). auto. Qed.
 Print Assumptions C09_revision_lists_agree.
 
-(* ---- the faithful model of the unchanged code refutes the full statement:
-   witnesses for the two finding classes ---------------------------------- *)
-Definition run_or (ops : list op) (s : state) : state := match run false ops s with Some x => x | None => s end.
+(* ---- the model of the code before fix fe4c1ff refutes the full statement:
+   witnesses for the two finding classes (they are the regression histories
+   corpus/C09/w2 and w3) ------------------------------------------------------ *)
+Definition run_or (ops : list op) (s : state) : state := match run FX_OLD ops s with Some x => x | None => s end.
+Definition run_or_t (ops : list op) (s : state) : state := match run FX_NOW ops s with Some x => x | None => s end.
 
 (* RemoveValidator inside the window *)
 Definition w1_pre : list op := [OCreateValidator 1 1 1 10 1000; OCreateValidator 2 2 1 5 500; OFinalise true].
@@ -73,44 +127,44 @@ Definition w1_s0 : state := run_or w1_pre init.
 Definition w1_ops : list op := [ORemoveValidator 1].
 Definition w1_s : state := run_or w1_ops (fst (snapshot w1_s0)).
 
-Theorem C09_refuted : ~ C09_full false.
+Theorem C09_refuted_before_fix : ~ C09_full FX_OLD.
 Proof.
   intros H.
   destruct (H w1_pre w1_s0 w1_ops w1_s) as (s' & Hr & (_ & Hv & _)).
   - vm_compute. reflexivity.
   - apply window_run_ok. vm_compute. reflexivity.
-  - assert (Hs : revert_to_snapshot false w1_s (next_rev w1_s0) = Some (run_or [ORevert 0] w1_s)) by (vm_compute; reflexivity).
+  - assert (Hs : revert_to_snapshot FX_OLD w1_s (next_rev w1_s0) = Some (run_or [ORevert 0] w1_s)) by (vm_compute; reflexivity).
     rewrite Hs in Hr. inversion Hr; subst s'. clear Hr Hs.
     destruct (veq_views _ _ Hv) as (Hp & _). specialize (Hp 1). vm_compute in Hp. discriminate.
 Qed.
-Print Assumptions C09_refuted.
+Print Assumptions C09_refuted_before_fix.
 
 (* the same for the statistics *)
-Example C09_refuted_remove_validator_statistics :
-  exists s', revert_to_snapshot false w1_s (next_rev w1_s0) = Some s' /\ stat (sv s') <> stat (sv w1_s0).
+Example C09_before_fix_remove_validator_statistics :
+  exists s', revert_to_snapshot FX_OLD w1_s (next_rev w1_s0) = Some s' /\ stat (sv s') <> stat (sv w1_s0).
 Proof. eexists; split; [vm_compute; reflexivity|]. vm_compute. discriminate. Qed.
-Print Assumptions C09_refuted_remove_validator_statistics.
+Print Assumptions C09_before_fix_remove_validator_statistics.
 
 (* RemoveWithdrawRecords inside the window: the queue comes back reordered *)
 Definition w2_pre : list op := [OAddWithdraw (mkW 1 0 4); OAddWithdraw (mkW 2 1 5); OAddWithdraw (mkW 3 2 6); OFinalise true].
 Definition w2_s0 : state := run_or w2_pre init.
 Definition w2_s : state := run_or [ORemoveWithdraws [0%nat]] (fst (snapshot w2_s0)).
-Example C09_refuted_withdraw_queue_order :
-  window_gen false any_op (next_rev w2_s0) [ORemoveWithdraws [0%nat]] (fst (snapshot w2_s0)) w2_s /\
-  exists s', revert_to_snapshot false w2_s (next_rev w2_s0) = Some s' /\
+Example C09_before_fix_withdraw_queue_order :
+  window_gen FX_OLD any_op (next_rev w2_s0) [ORemoveWithdraws [0%nat]] (fst (snapshot w2_s0)) w2_s /\
+  exists s', revert_to_snapshot FX_OLD w2_s (next_rev w2_s0) = Some s' /\
              queue (sv w2_s0) = [mkW 1 0 4; mkW 2 1 5; mkW 3 2 6] /\
              queue (sv s') = [mkW 2 1 5; mkW 3 2 6; mkW 1 0 4].
 Proof.
   split; [apply window_run_ok; vm_compute; reflexivity|].
   eexists; split; [vm_compute; reflexivity|]. split; vm_compute; reflexivity.
 Qed.
-Print Assumptions C09_refuted_withdraw_queue_order.
+Print Assumptions C09_before_fix_withdraw_queue_order.
 
 (* the designed exception of journal.go: a zero-value AddBalance to the RIPEMD
    precompile stays in journal.dirties after the revert *)
-Definition w3_s : state := run_or [OAddBalance 3 0] (fst (snapshot init)).
+Definition w3_s : state := run_or_t [OAddBalance 3 0] (fst (snapshot init)).
 Example C09_ripemd_touch_exception :
-  exists s', revert_to_snapshot false w3_s 0 = Some s' /\
+  exists s', revert_to_snapshot FX_NOW w3_s 0 = Some s' /\
              j_dirties (jr (sa init)) = [] /\ j_dirties (jr (sa s')) = [(3, 1%positive)].
 Proof. eexists; split; [vm_compute; reflexivity|]. split; vm_compute; reflexivity. Qed.
 Print Assumptions C09_ripemd_touch_exception.
@@ -122,18 +176,18 @@ Print Assumptions C09_ripemd_touch_exception.
 Definition nv_pre : list op :=
   [OPrepare 1 0; OSnapshot; OAddBalance 1 9; OSetState 1 1 4; OSetCode 1 [1; 2]; OAddLog 1;
    OCreateValidator 1 1 1 10 1000; OAddWithdraw (mkW 1 0 4); OSuicide 2; OFinalise true; OPrepare 2 1].
-Definition nv_s0 : state := run_or nv_pre init.
+Definition nv_s0 : state := run_or_t nv_pre init.
 Definition nv_ops : list op :=
   [OAddBalance 1 0; OSnapshot; OCreateAccount 2; OSetNonce 2 1; OSetState 1 1 5; OSetState 1 2 7;
    OUpdateVal 1 2 0 7 700 3; OSnapshot; OAddLog 2; OAddRefund 3; OUpdateDelegator 1 201 2 false;
    OCreateValidator 2 3 1 4 40; OAddWithdraw (mkW 2 1 5); ORevert 3; OSuicide 1; OAddPreimage 1 5; ORevert 2;
    OSetBalance 4 7; OSubBalance 1 3].
-Definition nv_s : state := run_or nv_ops (fst (snapshot nv_s0)).
+Definition nv_s : state := run_or_t nv_ops (fst (snapshot nv_s0)).
 Example C09_nonvacuous_window :
-  run false nv_pre init = Some nv_s0 /\
-  window false (next_rev nv_s0) nv_ops (fst (snapshot nv_s0)) nv_s /\
+  run FX_NOW nv_pre init = Some nv_s0 /\
+  window FX_NOW (next_rev nv_s0) nv_ops (fst (snapshot nv_s0)) nv_s /\
   obs_aside (sa nv_s) <> obs_aside (sa nv_s0) /\
-  (exists s', revert_to_snapshot false nv_s (next_rev nv_s0) = Some s' /\ obs_aside (sa s') = obs_aside (sa nv_s0)
+  (exists s', revert_to_snapshot FX_NOW nv_s (next_rev nv_s0) = Some s' /\ obs_aside (sa s') = obs_aside (sa nv_s0)
               /\ obs_vside (sv s') = obs_vside (sv nv_s0)).
 Proof.
   split; [vm_compute; reflexivity|].
@@ -145,11 +199,58 @@ Print Assumptions C09_nonvacuous_window.
 
 (* a validator mutation is really undone (the side conditions of theorem 1 are satisfiable) *)
 Definition nv2_ops : list op := [OUpdateVal 1 2 0 7 700 3; OCreateValidator 2 3 1 4 40; OAddWithdraw (mkW 2 1 5)].
-Definition nv2_s : state := run_or nv2_ops (fst (snapshot nv_s0)).
+Definition nv2_s : state := run_or_t nv2_ops (fst (snapshot nv_s0)).
 Example C09_nonvacuous_validator_window :
-  window false (next_rev nv_s0) nv2_ops (fst (snapshot nv_s0)) nv2_s /\
+  window FX_NOW (next_rev nv_s0) nv2_ops (fst (snapshot nv_s0)) nv2_s /\
   stat (sv nv2_s) <> stat (sv nv_s0) /\ queue (sv nv2_s) <> queue (sv nv_s0).
 Proof.
   split; [apply window_run_ok; vm_compute; reflexivity|]. split; vm_compute; discriminate.
 Qed.
 Print Assumptions C09_nonvacuous_validator_window.
+
+(* RemoveValidator and RemoveWithdrawRecords (several positions, given out of
+   order) inside a window are undone by the code as it is now *)
+Definition nv3_pre : list op :=
+  [OCreateValidator 1 1 1 10 1000; OCreateValidator 2 2 0 5 500;
+   OAddWithdraw (mkW 1 0 4); OAddWithdraw (mkW 2 1 5); OAddWithdraw (mkW 3 2 6); OAddWithdraw (mkW 1 3 7); OFinalise true].
+Definition nv3_s0 : state := match run FX_NOW nv3_pre init with Some x => x | None => init end.
+Definition nv3_ops : list op :=
+  [ORemoveWithdraws [2%nat; 0%nat]; OSnapshot; ORemoveValidator 1; OAddWithdraw (mkW 2 9 9); ORemoveWithdraws [1%nat]; ORevert 1;
+   ORemoveValidator 2].
+Definition nv3_s : state := match run FX_NOW nv3_ops (fst (snapshot nv3_s0)) with Some x => x | None => init end.
+Example C09_nonvacuous_remove_window :
+  window FX_NOW (next_rev nv3_s0) nv3_ops (fst (snapshot nv3_s0)) nv3_s /\
+  queue (sv nv3_s) <> queue (sv nv3_s0) /\ peek_validator (sv nv3_s) 2 <> peek_validator (sv nv3_s0) 2 /\
+  exists s', revert_to_snapshot FX_NOW nv3_s (next_rev nv3_s0) = Some s' /\ obs_vside (sv s') = obs_vside (sv nv3_s0).
+Proof.
+  split; [apply window_run_ok; vm_compute; reflexivity|].
+  split; [vm_compute; discriminate|]. split; [vm_compute; discriminate|].
+  eexists; split; vm_compute; reflexivity.
+Qed.
+Print Assumptions C09_nonvacuous_remove_window.
+
+(* ---- open finding: CreateValidator over a removed validator ---------------
+   RemoveValidator leaves the record in the live map (deleted flag) and in the
+   index; CreateValidator then replaces it, and validatorCreateChange.revert
+   deletes the live entry and the index entry instead of putting the replaced
+   record back.  The code as it is now (FX_NOW) loses the index entry; with the
+   proposed repair (FX_NEXT) the same history is restored. *)
+Definition w4_pre : list op := [OCreateValidator 1 1 1 9 13; OCreateValidator 2 2 1 5 50; ORemoveValidator 1].
+Definition w4_ops : list op := [OCreateValidator 1 3 0 7 70].
+Definition w4_s0 (fx : fixes) : state := match run fx w4_pre init with Some x => x | None => init end.
+Definition w4_s (fx : fixes) : state := match run fx w4_ops (fst (snapshot (w4_s0 fx))) with Some x => x | None => init end.
+Example C09_create_over_removed_validator :
+  window_gen FX_NOW any_op (next_rev (w4_s0 FX_NOW)) w4_ops (fst (snapshot (w4_s0 FX_NOW))) (w4_s FX_NOW) /\
+  (exists s', revert_to_snapshot FX_NOW (w4_s FX_NOW) (next_rev (w4_s0 FX_NOW)) = Some s' /\
+              vindex (sv (w4_s0 FX_NOW)) = [1; 2] /\ vindex (sv s') = [2] /\
+              find (vals (sv (w4_s0 FX_NOW))) 1 <> None /\ find (vals (sv s')) 1 = None) /\
+  window FX_NEXT (next_rev (w4_s0 FX_NEXT)) w4_ops (fst (snapshot (w4_s0 FX_NEXT))) (w4_s FX_NEXT) /\
+  (exists s', revert_to_snapshot FX_NEXT (w4_s FX_NEXT) (next_rev (w4_s0 FX_NEXT)) = Some s' /\
+              obs_vside (sv s') = obs_vside (sv (w4_s0 FX_NEXT))).
+Proof.
+  split; [apply window_run_ok; vm_compute; reflexivity|].
+  split; [eexists; split; [vm_compute; reflexivity|]; repeat split; vm_compute; (reflexivity || discriminate)|].
+  split; [apply window_run_ok; vm_compute; reflexivity|].
+  eexists; split; vm_compute; reflexivity.
+Qed.
+Print Assumptions C09_create_over_removed_validator.
